@@ -121,6 +121,8 @@ type outcome struct {
 	nontrivial bool
 	labels     []string
 	excluded   map[string]string
+	// shape of the result (largest over the APIs run): lines, run pieces in all, most pieces on a line
+	lines, pieces, maxPieces int
 }
 
 func (o *outcome) label(l string) { o.labels = append(o.labels, l) }
@@ -150,6 +152,19 @@ func evaluate(t ev.TB, c *Case, b *built, m *model) (out outcome) {
 			res = runParagraph(b, c, &lw)
 		}
 		p := m.parse(res)
+		if len(p.lines) > out.lines {
+			out.lines = len(p.lines)
+		}
+		np := 0
+		for i := range p.lines {
+			np += len(p.lines[i].pieces)
+			if len(p.lines[i].pieces) > out.maxPieces {
+				out.maxPieces = len(p.lines[i].pieces)
+			}
+		}
+		if np > out.pieces {
+			out.pieces = np
+		}
 		rep := &reporter{}
 		unreadable := res.panicked != nil || res.nonterm != "" || p.broken != ""
 		if on("C02") {
